@@ -342,7 +342,8 @@ def main():
            'scenarios': len(results), 'schedules_by_scenario_kind': per, 'longest_schedule': max([r['max_len'] for r in results] or [0]),
            'scenarios_truncated_at_limit': len([r for r in results if r['truncated']]),
            'known_findings_reproduced': [k for k, _ in rep.known]}
-    write_evidence(prop, 'proof', cov, time.time() - t0, len(rep.violations),
+    cov['explanation'] = 'partial: machine-checked theorems about the protocol models, tied to the code by trace correspondence and by exhaustive injection on the real processes; the kernel (each system call atomic), sqlite and the file system are trusted'
+    write_evidence(prop, 'other', cov, time.time() - t0, len(rep.violations),
                    ['interleaving granularity is the Python-level file-system call (open, rename, unlink, mkdir, listdir, scandir, sqlite statement/commit), not the machine instruction'])
     return rep.emit()
 
